@@ -118,11 +118,11 @@ fn run_case(v: &Value) -> String {
     let piece = v["write_size"].as_u64().unwrap_or(1 << 30) as usize;
     match kind {
         "enc" => {
-            let data = unhex(v["data"].as_str().unwrap_or(""));
+            let mut data = unhex(v["data"].as_str().unwrap_or(""));
             let o = opts(&v["opts"]);
             let framing = v["framing"].as_str().unwrap_or("lzma2");
             verif_api::set_lz_pos_bias(v["bias"].as_i64().unwrap_or(0) as i32);
-            let enc: Result<Vec<u8>, &'static str> = (|| match framing {
+            let encode = |data: &[u8]| -> Result<Vec<u8>, &'static str> { match framing {
                 "lzma1" => {
                     let mut w = LZMAWriter::new(Vec::new(), &o, false, true, None).map_err(|e| err_class(&e))?;
                     write_all_pieces(&mut w, &data, piece)?;
@@ -154,7 +154,32 @@ fn run_case(v: &Value) -> String {
                     write_all_pieces(&mut w, &data, piece)?;
                     w.finish().map_err(|e| err_class(&e))
                 }
-            })();
+            } };
+            // "fit": make the input end that many bytes after the physical end of the window buffer
+            if let Some(delta) = v["fit"].as_i64() {
+                let _ = verif_api::take_last_finish_gap();
+                let _ = encode(&data);
+                let gap = verif_api::take_last_finish_gap();
+                if gap != u64::MAX && gap <= (1 << 20) {
+                    let n = gap as i64 + delta;
+                    if n < 0 {
+                        let cut = ((-n) as usize).min(data.len());
+                        data.truncate(data.len() - cut);
+                    } else {
+                        if data.is_empty() {
+                            data.extend_from_slice(b"window fit ");
+                        }
+                        let period = data.len().min(331);
+                        for _ in 0..n {
+                            let b = data[data.len() - period];
+                            data.push(b);
+                        }
+                    }
+                }
+            }
+            let _ = verif_api::take_last_finish_gap();
+            let enc = encode(&data);
+            let gap = verif_api::take_last_finish_gap();
             verif_api::set_lz_pos_bias(0);
             let counters = verif_api::take_counters();
             match enc {
@@ -172,7 +197,18 @@ fn run_case(v: &Value) -> String {
                             Err(e) => (0, 0, err_class(&e)),
                         },
                     };
-                    format!("enc {} {:016x} norm {} dec {} {:016x} {} rt {}", s.len(), fnv64(&s), counters[1], n, h, c, fnv64(&data) == h && n == data.len())
+                    format!(
+                        "enc {} {:016x} norm {} dec {} {:016x} {} rt {} in {} gap {}",
+                        s.len(),
+                        fnv64(&s),
+                        counters[1],
+                        n,
+                        h,
+                        c,
+                        fnv64(&data) == h && n == data.len(),
+                        data.len(),
+                        if gap == u64::MAX { -1 } else { gap as i64 }
+                    )
                 }
             }
         }
